@@ -46,6 +46,9 @@ def close(a, b, rel=1e-9, abs_=0.0):
     return abs(a - b) <= rel * max(1.0, abs(a), abs(b)) + abs_
 
 
+BOOST = int(os.environ.get("VERIF_BOOST", "1"))
+
+
 def run(rng, tier, res=None, metrics=None):
     op = load_opfython()
     import opfython.math.distance as dist
@@ -56,7 +59,7 @@ def run(rng, tier, res=None, metrics=None):
     names = sorted(reg)
     if metrics:
         names = [n for n in names if n in metrics]
-    per = 14 if tier == "quick" else 150
+    per = (14 * BOOST) if tier == "quick" else 150
     lines, obs, metas = [], [], []
 
     def viol(prop, what, meta):
